@@ -184,15 +184,15 @@ type storeEnv struct {
 	// valueOptionalFrom: values of transactions with id >= this (recovered
 	// although never acknowledged) may be unreadable, never different. 0 = none.
 	valueOptionalFrom uint64
-	optLo, optHi      uint64 // an additional range of such ids (from an earlier crash)
-	crashDepth        int    // number of crashes this store directory went through
-	optMod          func(*store.Options) // extra store options of this instance
-	lossyFirstCrash   bool   // an earlier crash of this history lost or tore un-synced writes
-	wideKeys          int    // > 0: number of extra keys to draw from
-	compactBias       bool   // maintenance favours index compaction
-	emptyValuePct     int    // extra probability of empty values
-	starvePct         int    // probability that a committer is starved during its commit
-	digestOnlyBefore  uint64 // replica of a truncated primary: entries of older txs carry digests only (length 0)
+	optLo, optHi      uint64               // an additional range of such ids (from an earlier crash)
+	crashDepth        int                  // number of crashes this store directory went through
+	optMod            func(*store.Options) // extra store options of this instance
+	lossyFirstCrash   bool                 // an earlier crash of this history lost or tore un-synced writes
+	wideKeys          int                  // > 0: number of extra keys to draw from
+	compactBias       bool                 // maintenance favours index compaction
+	emptyValuePct     int                  // extra probability of empty values
+	starvePct         int                  // probability that a committer is starved during its commit
+	digestOnlyBefore  uint64               // replica of a truncated primary: entries of older txs carry digests only (length 0)
 }
 
 func (e *storeEnv) valueOptional(id uint64) bool {
